@@ -31,7 +31,8 @@ def run_check(tier, seed, replay=None):
     total = dn
     classes = {}
     samples = []
-    suites = [("mut", "c03", ["--n", str(500 if quick else 8000), "--mutants", str(12 if quick else 30)]),
+    suites = [("conforming", "c02", []),
+              ("mut", "c03", ["--n", str(500 if quick else 8000), "--mutants", str(12 if quick else 30)]),
               ("specop", "specop", []),
               ("proto", "c14", ["--n", str(20 if quick else 200)])]
     for sname, suite, extra in suites:
